@@ -1,3 +1,22 @@
 (** C04 — property theorems (statements only; proofs by [exact]). *)
 From Coq Require Import ZArith List.
-From RlibV Require Import C04.Model.
+Import ListNotations.
+From RlibV Require Import C04.Model C04.ProofsBasic.
+
+(** Shape, for every scalar type, every oracle and every object state (so also for binary64):
+    an empty operand gives the empty product and leaves the object untouched; the product has
+    |a|+|b|-1 coefficients; multiply_into adds to the destination, elementwise over the zip, exactly
+    what multiply returns (and leaves the object in the same state); fft_into adds one and the same
+    vector X of fft_size entries to any destination, fft being the case of the zero destination;
+    fft_inv_into adds what fft_inv returns. *)
+Theorem c04_shape : forall (F : Type) (ops : Ops F) (tw : nat -> nat -> F * F) (s : st (F := F)) (a b : list Z),
+  (a = [] \/ b = [] -> multiply ops tw s a b = (s, [])) /\
+  (a <> [] -> b <> [] -> length (snd (multiply ops tw s a b)) = length a + length b - 1) /\
+  (forall res, snd (multiply_into ops tw s a b res) = zip_acc Z.add res (snd (multiply ops tw s a b)) /\
+               fst (multiply_into ops tw s a b res) = fst (multiply ops tw s a b)) /\
+  (forall v n, exists X, length X = fft_size (length v) n /\
+       snd (fft ops tw s v n) = zip_acc (cadd ops) (repeat (czero ops) (fft_size (length v) n)) X /\
+       forall dest, snd (fft_into ops tw s v n dest) = zip_acc (cadd ops) dest X) /\
+  (forall (v : list (F * F)) k dest, length v = 2 ^ k ->
+       snd (fft_inv_into ops tw s v dest) = zip_acc Z.add dest (snd (fft_inv ops tw s v))).
+Proof. exact shape_all. Qed.
